@@ -3367,8 +3367,9 @@ impl XmlNotation {
         node
     }
 
-    pub fn parent(&self) -> Rc<XmlItem> {
-        self.context().node(self.parent_id).unwrap()
+    /// The document type declaration, unless it was removed and dropped (as `XmlEntity::parent`).
+    pub fn parent(&self) -> Option<Rc<XmlItem>> {
+        self.context().node(self.parent_id)
     }
 }
 
